@@ -326,7 +326,11 @@ func render(c gengo.Context, pieces []Piece, gen, typ string, st *state, into *s
 			refs := p.Refs
 			if p.Rotate && len(refs) > 0 {
 				// which references a package uses depends on the package (not on what else is generated)
-				k := len(c.Package("").Pkg().Path()) % len(refs)
+				k := 0
+				for _, ch := range []byte(c.Package("").Pkg().Path()) {
+					k += int(ch)
+				}
+				k %= len(refs)
 				refs = append(append([]string{}, refs[k:]...), refs[:k]...)
 				refs = refs[:len(refs)-k]
 				for i := len(refs); i < len(p.Refs); i++ {
